@@ -105,6 +105,10 @@ def apply_contract(interp, c, func, args, kwargs):
         old = _call_pred(interp, c.old, env)
     if c.event is not None:
         st.emit(c.event, dict(bound))
+    # ghost (monitor) variables the function may change: arbitrary afterwards, constrained by `ensures`
+    for key, ty in (c.modifies or {}).items():
+        if key.startswith('ghost:'):
+            st.ghost[key[6:]] = ty.make(interp, '%s@%s' % (key, c.qname.rpartition(':')[2]))
     # exceptional outcomes
     outcomes = ['return']
     for exc_cls, spec in c.raises.items():
@@ -279,6 +283,10 @@ def _run_path(interp, reg, c, func, rep):
     st = interp.st
     args, ghosts = make_inputs(interp, c)
     reg.ghost_env = dict(ghosts)
+    # ghost (monitor) variables declared in `modifies`: the function starts in an arbitrary monitor state
+    for key, ty in (c.modifies or {}).items():
+        if key.startswith('ghost:'):
+            st.ghost[key[6:]] = ty.make(interp, key)
     if c.setup is not None:
         extra = c.setup(interp, args, ghosts)
         if extra:
